@@ -257,3 +257,34 @@ def eptmapresult_unpack_any(c):
 
     c.loop(0, invariant=outer, havoc=havoc)
     c.loop(1, invariant=inner, havoc=havoc)
+
+
+# ================================================================================================ C18: port selection
+@REG.contract("dpapi_ng._client._process_ept_map_result", props=["C18", "C17"])
+def process_ept_map_result(c):
+    """For a well-formed reply: the TCP port of the first tower (list order, then floor order) that has a TCP floor;
+    a non-zero status or no TCP floor at all is an error. (List lengths bounded, see RES_TOWERS/RES_FLOORS.)"""
+    if not c.verifying:
+        resp = c.param("response")
+        c.raises("ValueError", when=None)
+        c.result(T.int(0, 0xFFFF))
+        c.ensures("port-range", lambda r: True)
+        return
+    h, h_rope = handle_fresh(c, "handle")
+    towers, octets, raws = towers_fresh(c, RES_TOWERS, bound(1, 2))
+    status = c.fresh(U32, "status")
+    stub = eptmap_result_rope(c, h_rope, octets, status)
+    resp = SObj(cls(c, "Response"), {"header": None, "sec_trailer": None, "alloc_hint": 0, "context_id": 0, "cancel_count": 0, "stub_data": stub})
+    c.param("response", T.const(resp))
+    first = None
+    for t in towers:
+        for f in t:
+            if f.cls.name == "TCPFloor" and first is None:
+                first = f.fields["port"]
+    ok = Z(status) == 0 if first is not None else False
+    c.raises("ValueError", when=c.Not(ok))
+    c.raises_only({"ValueError"})
+    if first is not None:
+        c.returns(first)
+    else:
+        c.no_normal_return()
